@@ -677,6 +677,9 @@ class TidemanAlternative:
         round_votes = votes
         while round_votes:
             s_set_list = self.get_winner_set(round_votes)
+            if not s_set_list:
+                # no pairwise contest at all: nobody is outside the set
+                s_set_list = votelib.util.all_ranked_candidates(round_votes)
             logger.info('condorcet set: %s', s_set_list)
             if len(s_set_list) == 1:
                 return s_set_list.pop()
@@ -685,6 +688,8 @@ class TidemanAlternative:
                 rem = eliminate_one(round_votes)
                 logger.info('eliminated to %s', rem)
                 if len(rem) == 1:
+                    if isinstance(rem[0], votelib.evaluate.core.Tie):
+                        raise NotImplementedError('tie in the last elimination')
                     return rem.pop()
                 else:
                     round_votes = RANKED_SUBSETTER.convert(round_votes, rem)
@@ -697,10 +702,15 @@ class TidemanAlternative:
 
 
 def eliminate_one(votes: Dict[RankedVoteType, int]) -> List[Candidate]:
-    return votelib.evaluate.core.get_n_best(
+    remaining = votelib.evaluate.core.get_n_best(
         allocation_totals(initial_allocation(votes)),
         len(votelib.util.all_ranked_candidates(votes)) - 1
     )
+    if len(remaining) > 1 and votelib.evaluate.core.Tie.any(remaining):
+        # several candidates are level for the elimination and more than
+        # one place is still to be decided among the others
+        raise NotImplementedError('tie in elimination')
+    return remaining
 
 
 class Benham:
